@@ -101,6 +101,13 @@ def applyAttrs (parseJid : String → Option String) : List Attr → Info → Ex
       applyAttrs parseJid as { i with lang := a.value }
     else applyAttrs parseJid as i
 
+/-- what `FromStartElement` records for a start element with one attribute (addresses taken
+as they are): ([xmlns, to, from, id, lang], major, minor), `none` on error -/
+def applyOne (space loc value : String) : Option (List String × Nat × Nat) :=
+  match applyAttrs some [⟨⟨space, loc⟩, value⟩] {} with
+  | .ok i => some ([i.xmlns, i.to, i.src, i.id, i.lang], i.version.1, i.version.2)
+  | .error _ => none
+
 def isWhite (s : String) : Bool := s.toList.all fun c => c = ' ' || c = '\t' || c = '\r' || c = '\n'
 
 /-- the condition of a `<stream:error>`: the local name of its first child element -/
